@@ -500,6 +500,8 @@ class Repo:
 
 
 def call_name(call):
+    if not isinstance(call, ast.Call):
+        return None
     f = call.func
     if isinstance(f, ast.Name):
         return f.id
